@@ -212,7 +212,6 @@ class C22(Prop):
         from workflows.resource import Resource, ResourceManager
 
         self.Resource = Resource
-        log_holder = self
 
         class RecManager(ResourceManager):
             """Logs and delegates; no behaviour of its own."""
@@ -236,7 +235,6 @@ class C22(Prop):
                     self._c22_log.get_exit(g, exc)
 
         self.RecManager = RecManager
-        del log_holder
 
     # ------------------------------------------------------------------ generator
     def strategy(self, tier):
@@ -612,6 +610,8 @@ class C22(Prop):
             r.classes.append("overlap_cached_being_built")
         if ov_nc:
             r.classes.append("overlap_noncached")
+        if any(concurrent(p) for p in log.phases):
+            r.classes.append("interleaved_injection_phases")
         if cyclic:
             r.classes.append("cycle_reached")
         elif _reaches_cycle(res, range(nf)):
